@@ -985,6 +985,15 @@ func init() {
 			p := with(cfgParams(c.exp, c.ref, c.bound, c.max, 1, 0), "steps", wsteps)
 			js = append(js, mk("c05.wheel_pending."+c.name, rootPkg, "ZZ_C05_WheelPending", p, func(b *Bounds) { b.Unwind = 70; b.MaxPaths = 800000; b.MaxWallS = 1800 }))
 		}
+		// a lifetime-extending read racing with the sweep that finds the entry's timer due
+		rsp := 2
+		if tier == "thorough" {
+			rsp = 3
+		}
+		rj := mk(sprintf("c05.read_vs_sweep.pre%d", rsp), rootPkg, "ZZ_C05_ReadVsSweep", nil,
+			func(b *Bounds) { b.Unwind = 70; b.Preempt = rsp; b.Race = true; b.MaxPaths = 8000000; b.MaxWallS = 3000 })
+		rj.Labels = []string{"c05r.untouched_live_entry_survives"}
+		js = append(js, rj)
 		return js
 	}
 }
